@@ -17,6 +17,8 @@
    the judge must reject the corrupted record."""
 import json
 import os
+import re
+import time
 
 import vlib
 
@@ -42,20 +44,41 @@ OFFERS = {
 
 
 def build():
-    return vlib.build_harness("c17_wrappers", ["c17_main.cpp", "c17_order.cpp", "c17_strong.cpp"], libs=())
+    return vlib.build_harness("c17_wrappers", ["c17_main.cpp", "c17_order.cpp", "c17_strong.cpp", "c17_own.cpp"], libs=())
+
+
+def retry_killed(fn, *a, **kw):
+    """TLC processes are occasionally killed by the kernel's OOM killer when many checks share the
+    box (rc=-9): that says nothing about the model, so the run is repeated (at most three times)."""
+    for attempt in range(3):
+        try:
+            return fn(*a, **kw)
+        except vlib.Infra as e:
+            if "rc=-9" not in str(e) or attempt == 2:
+                raise
+            vlib.log("TLC was killed (rc=-9); retrying after a pause")
+            time.sleep(20 * (attempt + 1))
+
 
 
 def model_check(ctx, thorough):
-    vlib.tlc_mc(ctx, "MC_Order", "MC_Order.cfg", workers=4)
-    vlib.tlc_mc(ctx, "MC_StrongTypedef", "MC_StrongTypedef.cfg", workers=4)
+    retry_killed(vlib.tlc_mc, ctx, "MC_Order", "MC_Order.cfg", workers=4)
+    retry_killed(vlib.tlc_mc, ctx, "MC_StrongTypedef", "MC_StrongTypedef.cfg", workers=4)
     if thorough:
-        vlib.tlc_mc(ctx, "MC_Order", "MC_Order_big.cfg", timeout=2400)
-        vlib.tlc_mc(ctx, "MC_StrongTypedef", "MC_StrongTypedef_big.cfg", timeout=2400)
+        retry_killed(vlib.tlc_mc, ctx, "MC_Order", "MC_Order_big.cfg", timeout=2400)
+        retry_killed(vlib.tlc_mc, ctx, "MC_StrongTypedef", "MC_StrongTypedef_big.cfg", timeout=2400)
+    # extension round (observed-only part of the check): ownership / lifetime state machine
+    retry_killed(vlib.tlc_mc, ctx, "MC_Ownership", "MC_Ownership.cfg", workers=4)
+    if thorough:
+        retry_killed(vlib.tlc_mc, ctx, "MC_Ownership", "MC_Ownership_big.cfg", timeout=2400)
     guards = [("MC_Order", "MC_Order_guard_%s.cfg" % w, "RankLaw") for w in ("no_lt_transitive", "no_inc_transitive", "no_eq_incomparable")]
     guards += [("MC_StrongTypedef", "MC_StrongTypedef_guard_%s.cfg" % w, "UnsignedLaw") for w in ("drop_carry", "mul_no_carry", "and_as_or")]
     guards += [("MC_StrongTypedef", "MC_StrongTypedef_guard_signed_and_unsigned.cfg", "SignedLaw")]
+    guards += [("MC_Ownership", "MC_Ownership_guard_%s.cfg" % b, inv) for b, inv in (
+        ("move_copies", "CountAgrees"), ("lock_no_check", "LockIffAlive"), ("from_unique_keeps", "SingleOwnerKind"),
+        ("assign_no_release", "AliveIffOwned"))]
     for module, cfg, inv in guards:
-        r = vlib.tlc(module, cfg, workers=2, expect=inv)
+        r = retry_killed(vlib.tlc, module, cfg, workers=2, expect=inv)
         if inv not in r.invariant_violated:
             raise vlib.Infra("vacuity guard: %s did not violate %s" % (cfg, inv))
         ctx.extra.setdefault("vacuity_guards", []).append({"cfg": cfg, "violates": inv})
@@ -71,12 +94,28 @@ def signature(rec, reason):
 
 def judge_lines(ctx, lines, origin, verdict=True):
     """Judge a list of record texts; returns {1-based line: set of reasons}.  With verdict=False
-    nothing is reported (used by the binding guard)."""
+    nothing is reported (used by the binding guard).  The judge keeps only the first 300 rejected
+    records of a chunk verbatim, so the kinds inside the statement of C17 and each observed-only kind
+    are judged as separate groups: a flood of rejections in one group cannot hide one in another."""
+    if verdict:
+        scope = in_scope_kinds()
+        groups = {}
+        for k, l in enumerate(lines):
+            m = re.match(r'\{"f":"(\w+)"', l)
+            kd = m.group(1) if m else "?"
+            groups.setdefault("inscope" if kd in scope else kd, []).append(k)
+        if len(groups) > 1:
+            why_of = {}
+            for g in sorted(groups):
+                sub = judge_lines(ctx, [lines[k] for k in groups[g]], "%s_%s" % (origin, g), True)
+                for l, w in sub.items():
+                    why_of[groups[g][l - 1] + 1] = w
+            return why_of
     path = os.path.join(ctx.workdir, "judge_%s.ndjson" % origin)
     with open(path, "w") as f:
         f.write("\n".join(lines) + "\n")
-    bad = vlib.judge_trace(ctx, JUDGE, JUDGE_CFG, path, boundary_key=None, timeout=2400,
-                           nchunks=(vlib.NCPU if verdict else 1))
+    bad = retry_killed(vlib.judge_trace, ctx, JUDGE, JUDGE_CFG, path, boundary_key=None, timeout=2400,
+                           nchunks=(max(1, min(vlib.NCPU, len(lines) // 400)) if verdict else 1))
     os.unlink(path)
     why_of = {}
     for b in bad:
@@ -86,10 +125,14 @@ def judge_lines(ctx, lines, origin, verdict=True):
     if not verdict:
         return why_of
     ctx.evaluations += len(lines)
+    scope = in_scope_kinds()
     for l in sorted(why_of):
         text = lines[l - 1]
         rec = json.loads(text)
         for why in sorted(why_of[l]):
+            if rec["f"] not in scope:
+                observe(ctx, "C17:%s:%s" % (rec["f"], why), "%s record (%s): %s; %s" % (rec["f"], origin, why, text[:500]))
+                continue
             detail = explain(rec, why) if rec["f"] == "order" else text[:500]
             ctx.reject(signature(rec, why), "%s record (%s): the specification cannot explain %s; %s" % (
                 rec["f"], origin, why, detail), {"record": rec if rec["f"] != "order" else {"f": "order", "type": rec["type"]}, "reason": why})
@@ -138,6 +181,17 @@ def corrupt(lines, why_of):
         r = json.loads(json.dumps(r))
         r[m][a][b] = 1 - r[m][a][b]
         add(r, True)
+    for f in ("own", "wrapx"):
+        src = [r for r in accepted if r["f"] == f and (f != "own" or any(o["sh"][0][0] for o in r["obs"]))]
+        if not src:
+            continue
+        r = json.loads(json.dumps(src[len(src) // 2]))
+        if f == "own":
+            k = max(i for i, o in enumerate(r["obs"]) if o["sh"][0][0])
+            r["obs"][k]["sh"][0][1] += 1        # a use_count that is one too high
+        else:
+            r["out"] = r["out"][:-1] + [r["out"][-1] + 1] if r["out"] else [1]
+        add(r, True)
     for f, field, bump in (("st_int", "xor", None), ("st_u32", "mul", 2), ("wrap", "same", None)):
         src = [r for r in accepted if r["f"] == f]
         if not src:
@@ -153,9 +207,47 @@ def corrupt(lines, why_of):
     return out, want
 
 
-def record(ctx, binary, thorough):
+def ownership_scripts(ctx):
+    """spec -> code: one operation script per generated transition of the small ownership model."""
+    r = retry_killed(vlib.tlc_mc, ctx, "MC_Ownership", "MC_OwnershipScripts.cfg", workers=4)
+    scripts = [s for s in vlib._verdict_lines(r.out).get("SCRIPT", []) if s]
+    if len(scripts) < 1000:
+        raise vlib.Infra("ownership script emission produced only %d scripts" % len(scripts))
+    last = set(s[-1]["op"] for s in scripts)
+    want = {"make_shared", "copy_shared", "static_cast", "dynamic_cast", "dynamic_cast_fail", "const_cast", "shared_from_this",
+            "assign_shared", "swap_shared", "move_shared", "destroy_shared", "weak_default", "weak_from_shared", "weak_copy",
+            "weak_destroy", "lock", "make_unique", "make_unique_to_base", "unique_from_std", "move_unique", "destroy_unique",
+            "shared_from_unique"}
+    if last != want:
+        raise vlib.Infra("ownership scripts do not cover every operation: %s" % sorted(want ^ last))
+    path = os.path.join(ctx.workdir, "own_scripts.ndjson")
+    vlib.write_ndjson(path, scripts)
+    ctx.extra["ownership_scripts"] = len(scripts)
+    return path
+
+
+def in_scope_kinds():
+    """The per-record-kind scope flag lives in the judge (InScope of spec/OrderJudge.tla)."""
+    import re
+    txt = open(os.path.join(vlib.SPEC, JUDGE + ".tla")).read()
+    m = re.search(r"^InScope == \{([^}]*)\}", txt, re.M)
+    if not m:
+        raise vlib.Infra("InScope not found in %s.tla" % JUDGE)
+    return set(re.findall(r'"(\w+)"', m.group(1)))
+
+
+def observe(ctx, sig, what):
+    """A disagreement outside the statement of C17: counted and written to the evidence, never a VIOLATION."""
+    o = ctx.extra.setdefault("observations", {})
+    e = o.setdefault(sig, {"count": 0, "first": what})
+    e["count"] += 1
+    if e["count"] == 1:
+        vlib.log("OBSERVATION (outside the statement of C17, not a verdict): %s: %s" % (sig, what[:400]))
+
+
+def record(ctx, binary, thorough, scripts=None):
     path = os.path.join(ctx.workdir, "recorded.ndjson")
-    rc, out = vlib.run_harness(binary, [path, "all", "thorough" if thorough else "quick", ctx.seed], timeout=1800)
+    rc, out = vlib.run_harness(binary, [path, "all", "thorough" if thorough else "quick", ctx.seed] + ([scripts] if scripts else []), timeout=1800)
     lines, tail = vlib.check_trace_file(path)
     if rc == 3:
         raise vlib.Infra("harness usage error: %s" % out[-300:])
@@ -163,10 +255,13 @@ def record(ctx, binary, thorough):
         kind = {66: "sanitizer", 67: "crash", 68: "hang", 124: "timeout"}.get(rc, "exit%d" % rc)
         m = None
         if tail:
-            import re
             m = re.search(r'"type":"([^"]+)"', tail) or re.search(r'"f":"(\w+)"', tail)
-        ctx.reject("C17:%s:%s" % (m.group(1) if m else "?", kind), "%s while recording: %s; partial line: %s" % (
-            kind, out[-300:], (tail or "")[:300]), {"partial_line": tail})
+        what = "%s while recording: %s; partial line: %s" % (kind, out[-300:], (tail or "")[:300])
+        fk = re.search(r'"f":"(\w+)"', tail or "")
+        if fk and fk.group(1) not in in_scope_kinds():
+            observe(ctx, "C17:%s:%s" % (fk.group(1), kind), what)
+        else:
+            ctx.reject("C17:%s:%s" % (m.group(1) if m else "?", kind), what, {"partial_line": tail})
     os.unlink(path)
     return lines
 
@@ -178,7 +273,8 @@ def run(ctx):
     if os.environ.get("VERIF_C17_SKIP_MC") != "1":
         model_check(ctx, thorough)
     binary = build()
-    lines = record(ctx, binary, thorough)
+    scripts = ownership_scripts(ctx)
+    lines = record(ctx, binary, thorough, scripts)
     orders = [json.loads(l) for l in lines if l.startswith('{"f":"order"')]
     seen = {r["type"]: " ".join(r["has"]) for r in orders}
     if seen != OFFERS:
@@ -217,12 +313,21 @@ def run(ctx):
                 ctx.count_class(("st_int", (a > 0) - (a < 0), (b > 0) - (b < 0), a == b, abs(a) in (127, 128), abs(b) in (127, 128)))
             else:
                 ctx.count_class(("st_u32", tuple(r["a"]), tuple(r["b"])))
+        elif l.startswith('{"f":"wrapx"'):
+            ctx.count_class(("wrapx", json.loads(l)["kind"]))
         elif l.startswith('{"f":"wrap"'):
             ctx.count_class(("wrap", json.loads(l)["kind"]))
+        elif l.startswith('{"f":"own"'):
+            r = json.loads(l)
+            ctx.traces_validated += 1
+            prev = "start"
+            for o in r["ops"]:
+                ctx.count_class(("own", prev, o["op"]))
+                prev = o["op"]
     ctx.sample({"order_record_excerpt": {k: (orders[0][k] if k in ("type", "n", "how", "comp", "has") else orders[0][k][:3]) for k in ("type", "n", "how", "comp", "has", "EQ", "LT")}})
-    for prefix in ('{"f":"st_int"', '{"f":"st_u32"', '{"f":"wrap"'):
+    for prefix in ('{"f":"st_int"', '{"f":"st_u32"', '{"f":"wrap"', '{"f":"wrapx"', '{"f":"own","src":"rnd"'):
         for l in lines:
-            if l.startswith(prefix):
+            if l.startswith(prefix) and 200 < len(l) < 2500 or (l.startswith(prefix) and "wrap" in prefix):
                 ctx.sample(json.loads(l))
                 break
     ctx.exhaustive = thorough
